@@ -3,8 +3,12 @@
 
   Side conditions, and which internal-error branch each one closes:
     ValidDoc.opsOk / fragsOk (selOk)   `KeyError` of `fragments[name]`, `UnknownType` of `get_type_from_literal`
-                                        (type conditions), `CoercionError` of `_skip_selection`  — collect_fields;
+                                        (type conditions)  — collect_fields;
                                         `UnboundLocalError` of `field_definition` (no `__schema`/`__type` off the root)
+    (no premise)                       `CoercionError` of `_skip_selection` (a condition that is not a Boolean at run time:
+                                        list literal, nullable variable with a default bound to null) is no longer an
+                                        exception: `ResolutionContext.collect_fields` converts it (4e87d3d) — `NoIntC` at
+                                        collect level, `noInt_catchDirective` at `execute_fields` level
     KeyConsistent                      all nodes of one response key name the SAME field, so the sub-selections merged
                                         for a runtime type are all well-typed for it (else: unknown fragments/types
                                         reached through an ill-typed sub-selection)
@@ -13,19 +17,39 @@
     SchemaOk.kinds                     `TypeError("Invalid field type")` (unknown / input type at an output position)
     WorldTyped + Conforms              `RuntimeError` (not iterable; leaf not serialisable; unknown enum value;
                                         abstract type resolved to a non-object / non-possible type), `UnknownType` of
-                                        `resolve_type`, and the "unexpected exception" outcome of a resolver
+                                        `resolve_type`, and the "unexpected exception" outcome of a resolver; iterables and
+                                        `resolve_type`s that raise `ResolverError` CONFORM (field errors since 7b8e151)
 -/
 import PyGqlModel.Exec
 import PyGqlModel.Spec.ValidDoc
 import PyGqlModel.Props.C04
+import PyGqlModel.Lemmas.C04Raise
 
 set_option linter.unusedSimpArgs false
 set_option linter.unusedVariables false
 
 namespace PyGql.Props.C05
-open PyGql PyGql.Exec PyGql.Spec PyGql.Props.C04
+open PyGql PyGql.Exec PyGql.Spec PyGql.Props.C04 PyGql.Lemmas.C04Raise
 
 def NoInt {α} (r : R α) : Prop := ∀ cls, r ≠ .error (.internal cls)
+
+/-- `collect_fields` level: no internal error other than the `CoercionError` of a directive condition that is not a
+    Boolean at run time — which `ResolutionContext.collect_fields` converts into a field error (`Exec.catchDirective`) -/
+def NoIntC {α} (r : R α) : Prop := ∀ cls, r = .error (.internal cls) → cls = "CoercionError"
+
+theorem noIntC_skip {α} {vars : Vars} {dirs : List Dir} {e : Fail} (hb : skipSelection vars dirs = .error e) :
+    NoIntC (Except.error e : R α) := by
+  intro cls h
+  have := skipSelection_err _ _ _ hb
+  subst this
+  simp at h
+  exact h.symm
+
+/-- the conversion closes the gap: after `catchDirective` no internal error is left -/
+theorem noInt_catchDirective {α} (r : R α) (h : NoIntC r) : NoInt (catchDirective r) := by
+  intro cls hh
+  obtain ⟨h1, h2⟩ := (catchDirective_internal r cls).mp hh
+  exact h2 (h cls h1)
 
 /-- runtime object type `rt` is (a possible type of) the static type `T` -/
 def Under (s : SchemaD) (rt T : String) : Prop := rt = T ∨ isPossibleType s T rt = true
@@ -42,6 +66,7 @@ def Conforms (s : SchemaD) : Ty → RVal → Bool
   | .nonNull t, v => Conforms s t v
   | .list _, .null => true
   | .list t, .list vs => vs.all (Conforms s t)
+  | .list t, .raise vs _ _ => vs.all (Conforms s t)      -- a lazy iterable that raises ResolverError after these items
   | .list _, _ => false
   | .named _, .null => true
   | .named n, .leaf j => (match kindOf s n with
@@ -52,6 +77,9 @@ def Conforms (s : SchemaD) : Ty → RVal → Bool
   | .named n, .obj rt => (match kindOf s n with
       | some .object => true
       | some .interface | some .union => kindOf s rt == some .object && isPossibleType s n rt
+      | _ => false)
+  | .named n, .raise _ _ _ => (match kindOf s n with        -- `resolve_type` raises ResolverError
+      | some .object | some .interface | some .union => true
       | _ => false)
 
 /-- typed world: values of the declared types or `ResolverError`s, never another exception -/
@@ -146,36 +174,6 @@ private theorem selsFields_mem (sels : List Sel) : ∀ sel ∈ sels, ∀ x ∈ s
     · exact Or.inl hx
     · exact Or.inr (ih sel hm x hx)
 
-theorem dirIf_ok (vars : Vars) (dirs : List Dir) (name : String) (hn : name = "skip" ∨ name = "include")
-    (h : dirsOk vars dirs = true) : ∃ r, dirIf vars dirs name = .ok r := by
-  unfold dirIf
-  cases hf : dirs.find? (·.name == name) with
-  | none => exact ⟨none, rfl⟩
-  | some d =>
-    have hm := List.mem_of_find?_eq_some hf
-    have hk := List.find?_some hf
-    simp at hk
-    unfold dirsOk at h
-    rw [List.all_eq_true] at h
-    have hd := h d hm
-    have hname : (d.name == "skip" || d.name == "include") = true := by
-      rcases hn with rfl | rfl <;> simp [hk]
-    simp only [hname, if_true] at hd
-    cases hc : d.cond with
-    | lit b => exact ⟨some b, by simp [hc]⟩
-    | var v =>
-      simp only [hc] at hd
-      cases hv : vars.get? v with
-      | none => simp [hv] at hd
-      | some j => exact ⟨some (truthy j), by simp [hc, hv]⟩
-    | bad => simp [hc] at hd
-
-theorem skipSelection_ok (vars : Vars) (dirs : List Dir) (h : dirsOk vars dirs = true) :
-    ∃ b, skipSelection vars dirs = .ok b := by
-  obtain ⟨a, ha⟩ := dirIf_ok vars dirs "skip" (Or.inl rfl) h
-  obtain ⟨b, hb⟩ := dirIf_ok vars dirs "include" (Or.inr rfl) h
-  exact ⟨(a.getD false || !b.getD true), by simp [skipSelection, ha, hb, bind, Except.bind, pure, Except.pure]⟩
-
 theorem applies_ok (s : SchemaD) (obj c : String) (h : isComposite s c = true) :
     ∃ b, fragmentTypeApplies s obj (some c) = .ok b ∧ (b = true → Under s obj c) := by
   unfold isComposite at h
@@ -208,13 +206,13 @@ theorem fragment_ok (s : SchemaD) (doc : Doc) (vars : Vars) (hf : fragsOk s doc 
 /-- what the fuel induction carries for `collect_fields` -/
 def CollectSound (s : SchemaD) (doc : Doc) (vars : Vars) (rec : String → List Sel → List String → R (Grouped × List String)) : Prop :=
   ∀ obj sels seen, SelsUnder s doc vars (docFields doc) obj sels →
-    NoInt (rec obj sels seen) ∧ ∀ g seen', rec obj sels seen = .ok (g, seen') → GroupOk (NodeOk s doc vars (docFields doc) obj) g
+    NoIntC (rec obj sels seen) ∧ ∀ g seen', rec obj sels seen = .ok (g, seen') → GroupOk (NodeOk s doc vars (docFields doc) obj) g
 
 private theorem collectStep_sound (s : SchemaD) (doc : Doc) (vars : Vars) (hf : fragsOk s doc vars = true)
     (rec : String → List Sel → List String → R (Grouped × List String)) (hrec : CollectSound s doc vars rec) (obj : String) :
     ∀ (sels : List Sel) (seen : List String) (g : Grouped), SelsUnder s doc vars (docFields doc) obj sels →
       GroupOk (NodeOk s doc vars (docFields doc) obj) g →
-      NoInt (collectStep s doc vars rec obj sels seen g) ∧
+      NoIntC (collectStep s doc vars rec obj sels seen g) ∧
       ∀ g' seen', collectStep s doc vars rec obj sels seen g = .ok (g', seen') → GroupOk (NodeOk s doc vars (docFields doc) obj) g' := by
   intro sels
   induction sels with
@@ -232,7 +230,9 @@ private theorem collectStep_sound (s : SchemaD) (doc : Doc) (vars : Vars) (hf : 
     cases sel with
     | field key name loc dirs args hs sub =>
       simp only [selOk, Bool.and_eq_true] at hsel
-      obtain ⟨b, hb⟩ := skipSelection_ok vars dirs hsel.1
+      rcases hb : skipSelection vars dirs with e | b
+      · simp only [collectStep, hb, bind, Except.bind]
+        exact ⟨noIntC_skip hb, by intro g' seen' h; simp at h⟩
       simp only [collectStep, hb, bind, Except.bind]
       cases b with
       | true => simpa using ih seen g hrest hg
@@ -262,7 +262,9 @@ private theorem collectStep_sound (s : SchemaD) (doc : Doc) (vars : Vars) (hf : 
         simpa using ih seen _ hrest (extend_groupOk _ _ _ _ hg (by simp) (by intro n hn; simp at hn; subst hn; exact hnode))
     | inline on dirs sub =>
       simp only [selOk, Bool.and_eq_true] at hsel
-      obtain ⟨b, hb⟩ := skipSelection_ok vars dirs hsel.1
+      rcases hb : skipSelection vars dirs with e | b
+      · simp only [collectStep, hb, bind, Except.bind, pure, Except.pure]
+        exact ⟨noIntC_skip hb, by intro g' seen' h; simp at h⟩
       simp only [collectStep, hb, bind, Except.bind, pure, Except.pure]
       cases b with
       | true => simpa using ih seen g hrest hg
@@ -305,7 +307,9 @@ private theorem collectStep_sound (s : SchemaD) (doc : Doc) (vars : Vars) (hf : 
       | none => simp [hfr] at hsel
       | some fr =>
         obtain ⟨hcomp, hbody, hFr⟩ := fragment_ok s doc vars hf name fr hfr
-        obtain ⟨b, hb⟩ := skipSelection_ok vars dirs hsel.1
+        rcases hb : skipSelection vars dirs with e | b
+        · simp only [collectStep, hfr, hb, bind, Except.bind, pure, Except.pure]
+          exact ⟨noIntC_skip hb, by intro g' seen' h; simp at h⟩
         simp only [collectStep, hfr, hb, bind, Except.bind, pure, Except.pure]
         cases b with
         | true => simpa using ih seen g hrest hg
@@ -389,6 +393,16 @@ theorem completeValue_noInt (s : SchemaD) (execSub : String → Path → List Se
     | null => intro cls h; simp [completeValue] at h
     | leaf j => simp [Conforms] at hc
     | obj rt => simp [Conforms] at hc
+    | raise vs msg ext =>
+      simp only [Conforms, List.all_eq_true] at hc
+      intro cls h
+      simp only [completeValue] at h
+      cases h1 : completeList (completeValue s execSub nodes t) path 0 vs with
+      | error e =>
+        simp [h1] at h
+        exact completeList_noInt _ (fun v => Conforms s t v = true)
+          (fun p v hv => ih p v (by simpa [Ty.base] using hk) hv (by simpa [Ty.base] using he)) path vs 0 hc cls (by rw [h1, h])
+      | ok p => simp [h1] at h
     | list vs =>
       simp only [Conforms, List.all_eq_true] at hc
       intro cls h
@@ -430,6 +444,15 @@ theorem completeValue_noInt (s : SchemaD) (execSub : String → Path → List Se
       simp only [Conforms, hkn] at hc
       cases k with
       | object => exact he n path hkn (Or.inl rfl) cls h
+      | _ => simp at hc
+    | raise vs msg ext =>
+      intro cls h
+      simp only [completeValue, hkn] at h
+      simp only [Conforms, hkn] at hc
+      cases k with
+      | object => exact he n path hkn (Or.inl rfl) cls h
+      | interface => simp at h
+      | union => simp at h
       | _ => simp at hc
     | obj rt =>
       intro cls h
@@ -539,6 +562,7 @@ private theorem executeGroups_noInt (s : SchemaD) (hs : SchemaOk s) (doc : Doc) 
                   have hk0 := hk (key, node :: more) (by simp) node (by simp)
                   refine ⟨hno, hkn, ?_⟩
                   exact hF _ hno.1 _ hnode.1 (by simp [hkn, hk0])
+                rw [catchField_internal] at h'
                 exact completeValue_noInt s execSub (node :: more) fd.type _ v (hs.kinds rt node.name fd hfo) hwt
                   (fun rt' p hobj hu => he rt' p _ hobj
                     (merged_under s hs doc vars F hF rt node.name fd hfo key (node :: more) hnodes rt' hu)) cls' h'
@@ -563,10 +587,13 @@ private theorem executeFields_noInt (s : SchemaD) (hs : SchemaOk s) (doc : Doc) 
     simp only [executeFields, bind, Except.bind, pure, Except.pure] at h
     obtain ⟨hni, hgo⟩ := collect_sound s doc vars hf cf rt sels [] hsu
     cases h1 : collectFields s doc vars cf rt sels [] with
-    | error e => simp [h1] at h; exact hni cls (by rw [h1, h])
+    | error e =>
+      simp [h1] at h
+      obtain ⟨he, hne⟩ := (Fail.directive_eq_internal e cls).mp h
+      exact hne (hni cls (by rw [h1, he]))
     | ok p1 =>
       obtain ⟨g, seen'⟩ := p1
-      simp only [h1] at h
+      simp only [h1, catchDirective_ok] at h
       have hk := (alias_merge s doc vars cf rt sels [] g seen' h1).2
       have hg := hgo g seen' h1
       cases h2 : executeGroups s w (executeFields s doc vars w cf n) rt path g with
@@ -627,10 +654,9 @@ theorem validated_no_internal_error_keyConsistent (s : SchemaD) (hs : SchemaOk s
         cases hr : executeFields s doc vars w cf fuel root [] o.sels with
         | ok p => simp
         | error f =>
-          simp only []
-          intro hh
-          simp at hh
-          exact this cls (by rw [hr, hh])
+          cases f with
+          | internal c => exact absurd hr (this c)
+          | _ => simp
 
 /-! ### non-vacuity: a schema with an interface, a covariant implementation, and a typed world -/
 def exS : SchemaD :=
